@@ -246,6 +246,10 @@ func writeReplay(id, name string, c any, v *Violation, path string) {
 	_ = os.WriteFile(path, b, 0o644)
 }
 
+// WriteReplayFile writes a failing case as a replay file (for checks which do not run under
+// vf.Check, such as native fuzz targets).
+func WriteReplayFile(id, name string, c any, v *Violation, path string) { writeReplay(id, name, c, v, path) }
+
 func runCase[C any](t *testing.T, p *Prop[C], c C) (res Result) {
 	if !p.Bubble {
 		return p.Run(c)
